@@ -313,7 +313,12 @@ def mutate_value(
 
     # If `transform` is provided, transform `value`
     if transform:
-        value = transform(value)
+        transformed = transform(value)
+        if transformed is not value:
+            # The transform handed back some other object, which (unlike a
+            # value constructed or copied above) is not ours to modify.
+            mutate_safe = inplace
+        value = transformed
 
     # If `attr_transforms` is provided, transform attributes
     if attr_transforms:
